@@ -2,6 +2,7 @@ use crate::fw::Ctx;
 
 pub mod c02;
 pub mod c03;
+pub mod c09;
 pub mod c10;
 
 pub struct Check {
@@ -21,6 +22,11 @@ pub fn lookup(id: &str) -> Option<Check> {
             id: "C03",
             level: "exploration",
             run: c03::run,
+        },
+        Check {
+            id: "C09",
+            level: "exploration",
+            run: c09::run,
         },
         Check {
             id: "C10",
